@@ -372,47 +372,46 @@ func fileReadAux(L *LState, file *lFile, idx int) int {
 			L.Push(LString(string(buf)))
 		case LString:
 			options := L.CheckString(i)
-			if len(options) > 0 && options[0] != '*' {
-				L.ArgError(2, "invalid options:"+options)
+			if len(options) < 2 || options[0] != '*' {
+				L.ArgError(i, "invalid format")
 			}
-			for _, opt := range options[1:] {
-				switch opt {
-				case 'n':
-					var v LNumber
-					// blanks before the numeral are skipped, line ends included (as fscanf does); where no
-					// number can be read the result is nil and nothing further is read
-					if _, err = fmt.Fscan(file.reader, &v); err != nil {
-						err = nil
-						L.Push(LNil)
-						goto normalreturn
-					}
-					L.Push(v)
-				case 'a':
-					var buf []byte
-					buf, err = io.ReadAll(file.reader)
-					if err == io.EOF {
-						L.Push(emptyLString)
-						goto normalreturn
-					}
-					if err != nil {
-						goto errreturn
-					}
-					L.Push(LString(string(buf)))
-				case 'l':
-					var buf []byte
-					var iseof bool
-					buf, err, iseof = readBufioLine(file.reader)
-					if iseof {
-						L.Push(LNil)
-						goto normalreturn
-					}
-					if err != nil {
-						goto errreturn
-					}
-					L.Push(LString(string(buf)))
-				default:
-					L.ArgError(2, "invalid options:"+string(opt))
+			// the character after the '*' selects the format, the rest is not looked at ("*l", "*line")
+			switch options[1] {
+			case 'n':
+				var v LNumber
+				// blanks before the numeral are skipped, line ends included (as fscanf does); where no
+				// number can be read the result is nil and nothing further is read
+				if _, err = fmt.Fscan(file.reader, &v); err != nil {
+					err = nil
+					L.Push(LNil)
+					goto normalreturn
 				}
+				L.Push(v)
+			case 'a':
+				var buf []byte
+				buf, err = io.ReadAll(file.reader)
+				if err == io.EOF {
+					L.Push(emptyLString)
+					goto normalreturn
+				}
+				if err != nil {
+					goto errreturn
+				}
+				L.Push(LString(string(buf)))
+			case 'l':
+				var buf []byte
+				var iseof bool
+				buf, err, iseof = readBufioLine(file.reader)
+				if iseof {
+					L.Push(LNil)
+					goto normalreturn
+				}
+				if err != nil {
+					goto errreturn
+				}
+				L.Push(LString(string(buf)))
+			default:
+				L.ArgError(i, "invalid format")
 			}
 		}
 	}
